@@ -369,13 +369,18 @@ def _work(chunk):
             rs = [cls(wr) for cls in (MermaidGantt, MermaidNetwork, DhtmlxGantt)]
             for r in rs:
                 r.to_html()
+                r._repr_html_()
             tr[-1].name = 'renamed later'
             tr[0].gantt_section = 'LateSection'
             tr[0].end = tr[0].end + timedelta(days=1)
             for r, cls in zip(rs, (MermaidGantt, MermaidNetwork, DhtmlxGantt)):
                 acc.count('evaluations')
                 acc.count('rerender_after_change')
-                if r.to_html() != cls(wr).to_html():
+                page2 = r.to_html()
+                if not r._repr_html_().startswith('<iframe srcdoc="' + html.escape(page2) + '"'):
+                    acc.violation('C19', f'{cls.__name__}/notebook-stale-after-wbs-change/other', '_repr_html_() of a renderer shown before the '
+                                  'WBS was edited is not the escaped current document', {'parents': list(par), 'links': [list(x) for x in links]})
+                if page2 != cls(wr).to_html():
                     acc.violation('C19', f'{cls.__name__}/stale-after-wbs-change/other', 'to_html() of a renderer created before the WBS was '
                                   'edited differs from a fresh renderer', {'parents': list(par), 'links': [list(x) for x in links]})
         if len(acc.samples) < 1:
